@@ -1521,6 +1521,37 @@ mod tests {
         (w, d)
     }
 
+    #[test]
+    fn a_full_disk_fails_println_loudly_and_write_all_with_enospc() {
+        // the device takes 6 more bytes: println! writes what fits and panics like std's
+        let (w, _d) = simulate_env(&[Decision::WriteFault { at: 6 }], &world::Disk::fresh(1), None, || {
+            crate::seams::emit(format_args!("0123456789"), true);
+            crate::seams::emit(format_args!("never"), true);
+        });
+        assert_eq!(w.out, "012345");
+        assert!(w.write_faulted);
+        assert_eq!(w.stats.write_faults_injected, 1);
+        // a write through the handle: a short write first, then ENOSPC for good
+        let (w, _d) = simulate_env(&[Decision::WriteFault { at: 3 }], &world::Disk::fresh(1), None, || {
+            let mut o = sstd::io::stdout();
+            assert_eq!(o.write(b"abcdef").unwrap(), 3);
+            let e = o.write(b"def").unwrap_err();
+            assert_eq!(e.raw_os_error(), Some(28));
+            let e = o.write_all(b"x").unwrap_err();
+            assert_eq!(e.raw_os_error(), Some(28));
+            // files are on the same disk
+            let e = sstd::fs::write("../target/t.txt", b"hello").unwrap_err();
+            assert_eq!(e.raw_os_error(), Some(28));
+        });
+        assert_eq!(w.out, "abc");
+        // no fault planned: nothing changes
+        let (w, _d) = simulate_env(&[], &world::Disk::fresh(1), None, || {
+            crate::seams::emit(format_args!("0123456789"), true);
+        });
+        assert_eq!(w.out, "0123456789\n");
+        assert!(!w.write_faulted);
+    }
+
     fn writes_three_chunks() {
         let mut f = sstd::fs::File::create("../target/state.txt").unwrap();
         f.write_all(b"AAAA").unwrap();
